@@ -454,10 +454,13 @@ def _mem_keys(e, out):
     elif t == "old":
         return  # already pinned to its point
     elif t == "call":
+        if e[3]:
+            # the result of one particular execution of an effectful call: a snapshot, invalidated only by
+            # executing that site again
+            out.add(("site", e[3][0]))
+            return
         for a in e[2]:
             _mem_keys(a, out)
-        if e[3]:
-            out.add(("site", e[3][0]))
         if e[4]:
             out.add(("callee", e[4]))
     else:
